@@ -7,6 +7,7 @@ use crate::adapter::*;
 use crate::ir::*;
 use crate::runner::pick;
 
+pub static EXCLUDED_REIF_INCR_CUM: std::sync::atomic::AtomicU64 = std::sync::atomic::AtomicU64::new(0);
 pub static EXCLUDED_OVERCAP: std::sync::atomic::AtomicU64 = std::sync::atomic::AtomicU64::new(0);
 
 #[derive(Clone, Copy, Debug, PartialEq, Eq, Hash)]
@@ -79,6 +80,9 @@ pub struct GenParams {
     pub allow_overcap: bool,
     /// permille of constraints in which the same variable may occur more than once
     pub dup_vars_permille: u32,
+    /// permille of constraints which are adjusted so that the planted assignment satisfies them
+    pub plant_permille: u32,
+    pub allow_reified_incremental_cumulative: bool,
 }
 
 impl GenParams {
@@ -99,17 +103,19 @@ impl GenParams {
             allow_pred_clause: true,
             allow_overcap: false,
             dup_vars_permille: 0,
+            plant_permille: 750,
+            allow_reified_incremental_cumulative: false,
         }
     }
 }
 
-pub type RawVar = (u8, i8, u8, u16);
+pub type RawVar = (u8, i8, u8, u16, u16);
 pub type RawCons = (u16, [u16; 12], [i8; 12], u16, u16, bool);
 
 pub fn raw_model_strategy(p: &GenParams) -> BoxedStrategy<(Vec<RawVar>, Vec<RawCons>)> {
     let span = p.lb_span;
     (
-        vec((any::<u8>(), -span..=span, any::<u8>(), any::<u16>()), p.min_vars..=p.max_vars),
+        vec((any::<u8>(), -span..=span, any::<u8>(), any::<u16>(), any::<u16>()), p.min_vars..=p.max_vars),
         vec(
             (
                 any::<u16>(),
@@ -133,7 +139,7 @@ pub fn model_strategy(p: &GenParams) -> BoxedStrategy<Model> {
 pub fn build_vars(p: &GenParams, rv: &[RawVar]) -> Vec<VarDecl> {
     let mut vars = vec![];
     let mut space: u64 = 1;
-    for (kind, lb, size, mask) in rv {
+    for (kind, lb, size, mask, _) in rv {
         let room = (p.space_limit / space).max(1);
         let max_size = (p.max_dom as u64).min(room).max(1);
         let size = 1 + (*size as u64 * max_size >> 8);
@@ -164,8 +170,21 @@ pub fn build_vars(p: &GenParams, rv: &[RawVar]) -> Vec<VarDecl> {
     vars
 }
 
+/// the planted assignment: constraints are (usually) adjusted so that it satisfies them
+pub fn build_witness(vars: &[VarDecl], rv: &[RawVar]) -> Vec<i32> {
+    vars.iter()
+        .zip(rv)
+        .map(|(d, r)| {
+            let vals = d.values();
+            vals[pick(r.4, vals.len())]
+        })
+        .collect()
+}
+
 struct Cx<'a> {
     p: &'a GenParams,
+    w: &'a [i32],
+    plant: bool,
     vars: &'a [VarDecl],
     bools: Vec<usize>,
     a: &'a [u16; 12],
@@ -198,6 +217,17 @@ impl Cx<'_> {
         self.used.push(v);
         v
     }
+    fn free_count(&self) -> usize {
+        (0..self.vars.len()).filter(|v| !self.used.contains(v)).count()
+    }
+    /// number of list elements which can be drawn (`reserve` variables are needed afterwards)
+    fn cap(&self, n: usize, reserve: usize) -> usize {
+        if self.allow_dup {
+            n
+        } else {
+            n.min(self.free_count().saturating_sub(reserve)).max(1)
+        }
+    }
     fn term(&mut self) -> Term {
         let var = self.var();
         let s = self.s();
@@ -216,6 +246,21 @@ impl Cx<'_> {
         };
         let offset = if o.abs() <= 4 { 0 } else { (o as i32).signum() * (o.abs() as i32 - 4) };
         Term { var, scale, offset }
+    }
+    fn wv(&self, t: &Term) -> i64 {
+        t.scale as i64 * self.w[t.var] as i64 + t.offset as i64
+    }
+    fn wl(&self, l: &Lit) -> bool {
+        (self.w[l.var] != 0) != l.neg
+    }
+    /// shift the offset of `t` so that it takes the value `target` under the witness
+    fn aim(&self, t: &mut Term, target: i64) {
+        if self.plant {
+            let delta = target - self.wv(t);
+            if delta.abs() < 1000 {
+                t.offset += delta as i32;
+            }
+        }
     }
     fn range(&self, t: &Term) -> (i64, i64) {
         let d = &self.vars[t.var];
@@ -243,11 +288,12 @@ impl Cx<'_> {
     }
 }
 
-pub fn build_cons(p: &GenParams, vars: &[VarDecl], rc: &RawCons, index: usize) -> Option<Posted> {
-    let (kind, a, s, mode_pick, _lit_pick, tag) = rc;
+pub fn build_cons(p: &GenParams, vars: &[VarDecl], w: &[i32], rc: &RawCons, index: usize) -> Option<Posted> {
+    let (kind, a, s, mode_pick, lit_pick, tag) = rc;
+    let plant = ((*lit_pick as u32 * 1000) >> 16) < p.plant_permille;
     let bools: Vec<usize> = vars.iter().enumerate().filter(|(_, d)| matches!(d, VarDecl::Bool)).map(|(i, _)| i).collect();
     let allow_dup = ((a[11] as u32 * 1000) >> 16) < p.dup_vars_permille;
-    let mut cx = Cx { p, vars, bools, a, s, ai: 0, si: 0, allow_dup, used: vec![] };
+    let mut cx = Cx { p, w, plant, vars, bools, a, s, ai: 0, si: 0, allow_dup, used: vec![] };
     if vars.is_empty() {
         return None;
     }
@@ -268,28 +314,82 @@ pub fn build_cons(p: &GenParams, vars: &[VarDecl], rc: &RawCons, index: usize) -
     if matches!(k, K::PredClause) && !p.allow_pred_clause {
         k = K::LinNe;
     }
+    if !allow_dup {
+        // kinds which need more distinct variables than the model has are replaced
+        let need = match k {
+            K::BinEq | K::BinNe | K::BinLe | K::BinLt | K::Abs | K::Max | K::Min | K::AllDiff | K::BoolLinEq => 2,
+            K::Plus | K::Times | K::Div | K::Element => 3,
+            _ => 1,
+        };
+        if vars.len() < need {
+            k = K::LinLe;
+        }
+    }
     let cons = match k {
         K::LinLe | K::LinEq | K::LinNe => {
-            let n = 1 + pick(cx.a(), 4);
+            let r = cx.a();
+            let n = cx.cap(1 + pick(r, 4), 0);
             let terms: Vec<Term> = (0..n).map(|_| cx.term()).collect();
             let (lo, hi) = terms.iter().map(|t| cx.range(t)).fold((0, 0), |acc, r| (acc.0 + r.0, acc.1 + r.1));
-            let rhs = cx.within(lo, hi);
+            let mut rhs = cx.within(lo, hi);
+            if cx.plant {
+                let lhs: i64 = terms.iter().map(|t| cx.wv(t)).sum();
+                let slack = (cx.s().unsigned_abs() as i64) % 3;
+                rhs = match k {
+                    K::LinLe => lhs + slack,
+                    K::LinEq => lhs,
+                    _ => {
+                        if rhs as i64 == lhs {
+                            lhs + 1 + slack
+                        } else {
+                            rhs as i64
+                        }
+                    }
+                } as i32;
+            }
             match k {
                 K::LinLe => Cons::LinLe { terms, rhs },
                 K::LinEq => Cons::LinEq { terms, rhs },
                 _ => Cons::LinNe { terms, rhs },
             }
         }
-        K::BinEq => Cons::BinEq { a: cx.term(), b: cx.term() },
+        K::BinEq => {
+            let a = cx.term();
+            let mut b = cx.term();
+            cx.aim(&mut b, cx.wv(&a));
+            Cons::BinEq { a, b }
+        }
         K::BinNe => Cons::BinNe { a: cx.term(), b: cx.term() },
-        K::BinLe => Cons::BinLe { a: cx.term(), b: cx.term() },
-        K::BinLt => Cons::BinLt { a: cx.term(), b: cx.term() },
-        K::Plus => Cons::Plus { a: cx.term(), b: cx.term(), c: cx.term() },
-        K::Times => Cons::Times { a: cx.term(), b: cx.term(), c: cx.term() },
+        K::BinLe => {
+            let a = cx.term();
+            let mut b = cx.term();
+            if cx.wv(&a) > cx.wv(&b) {
+                cx.aim(&mut b, cx.wv(&a));
+            }
+            Cons::BinLe { a, b }
+        }
+        K::BinLt => {
+            let a = cx.term();
+            let mut b = cx.term();
+            if cx.wv(&a) >= cx.wv(&b) {
+                cx.aim(&mut b, cx.wv(&a) + 1);
+            }
+            Cons::BinLt { a, b }
+        }
+        K::Plus => {
+            let (a, b, mut c) = (cx.term(), cx.term(), cx.term());
+            cx.aim(&mut c, cx.wv(&a) + cx.wv(&b));
+            Cons::Plus { a, b, c }
+        }
+        K::Times => {
+            let (a, b, mut c) = (cx.term(), cx.term(), cx.term());
+            cx.aim(&mut c, cx.wv(&a) * cx.wv(&b));
+            Cons::Times { a, b, c }
+        }
         K::Div => {
             let n = cx.term();
             let mut d = cx.term();
-            let r = cx.term();
+            let mut r = cx.term();
             // documented precondition: 0 is not in the domain of the denominator
             let (lo, hi) = cx.range(&d);
             if lo <= 0 && hi >= 0 {
@@ -303,13 +403,24 @@ pub fn build_cons(p: &GenParams, vars: &[VarDecl], rc: &RawCons, index: usize) -
                     }
                 }
             }
+            if cx.wv(&d) != 0 {
+                cx.aim(&mut r, cx.wv(&n) / cx.wv(&d));
+            }
             Cons::Div { n, d, r }
         }
-        K::Abs => Cons::Abs { x: cx.term(), y: cx.term() },
+        K::Abs => {
+            let x = cx.term();
+            let mut y = cx.term();
+            cx.aim(&mut y, cx.wv(&x).abs());
+            Cons::Abs { x, y }
+        }
         K::Max | K::Min => {
-            let n = 1 + pick(cx.a(), 4);
+            let r = cx.a();
+            let n = cx.cap(1 + pick(r, 4), 1);
             let xs: Vec<Term> = (0..n).map(|_| cx.term()).collect();
-            let m = cx.term();
+            let mut m = cx.term();
+            let target = if k == K::Max { xs.iter().map(|t| cx.wv(t)).max() } else { xs.iter().map(|t| cx.wv(t)).min() };
+            cx.aim(&mut m, target.unwrap());
             if k == K::Max {
                 Cons::Max { xs, m }
             } else {
@@ -317,7 +428,8 @@ pub fn build_cons(p: &GenParams, vars: &[VarDecl], rc: &RawCons, index: usize) -
             }
         }
         K::Element => {
-            let n = 1 + pick(cx.a(), 4);
+            let r = cx.a();
+            let n = cx.cap(1 + pick(r, 4), 2);
             let array: Vec<Term> = (0..n).map(|_| cx.term()).collect();
             let mut idx = cx.term();
             // usually align the index range with the array
@@ -328,16 +440,41 @@ pub fn build_cons(p: &GenParams, vars: &[VarDecl], rc: &RawCons, index: usize) -
                     idx.offset -= 1;
                 }
             }
-            let rhs = cx.term();
+            let mut rhs = cx.term();
+            if cx.plant {
+                let i = cx.wv(&idx);
+                if i < 0 || i >= array.len() as i64 {
+                    let want = pick(cx.a(), array.len()) as i64;
+                    cx.aim(&mut idx, want);
+                }
+                let i = cx.wv(&idx);
+                if i >= 0 && i < array.len() as i64 {
+                    cx.aim(&mut rhs, cx.wv(&array[i as usize]));
+                }
+            }
             Cons::Element { idx, array, rhs }
         }
         K::AllDiff => {
-            let n = 2 + pick(cx.a(), 3);
+            let r = cx.a();
+            let n = cx.cap(2 + pick(r, 3), 0);
             Cons::AllDiff { xs: (0..n).map(|_| cx.term()).collect() }
         }
         K::Clause | K::Conj => {
             let n = pick(cx.a(), 4) + if cx.s() > 6 { 0 } else { 1 };
-            let lits: Vec<Lit> = (0..n).filter_map(|_| cx.lit()).collect();
+            let mut lits: Vec<Lit> = (0..n).filter_map(|_| cx.lit()).collect();
+            if cx.plant {
+                if k == K::Clause {
+                    if !lits.is_empty() && !lits.iter().any(|l| cx.wl(l)) {
+                        lits[0].neg = !lits[0].neg;
+                    }
+                } else {
+                    for l in lits.iter_mut() {
+                        if !cx.wl(l) {
+                            l.neg = !l.neg;
+                        }
+                    }
+                }
+            }
             if k == K::Clause {
                 Cons::Clause { lits }
             } else {
@@ -345,21 +482,27 @@ pub fn build_cons(p: &GenParams, vars: &[VarDecl], rc: &RawCons, index: usize) -
             }
         }
         K::BoolLinLe | K::BoolLinEq => {
-            let n = 1 + pick(cx.a(), 4);
+            let free_bools = cx.bools.iter().filter(|v| !cx.used.contains(v)).count();
+            let n = if cx.allow_dup { 1 + pick(cx.a(), 4) } else { (1 + pick(cx.a(), 4)).min(free_bools).max(1) };
             let lits: Vec<Lit> = (0..n).filter_map(|_| cx.lit()).collect();
             // zero weights are excluded by construction (known finding KF-zero-scale)
             let ws: Vec<i32> = lits.iter().map(|_| (cx.s() as i32).clamp(-3, 3)).map(|w| if w == 0 { 1 } else { w }).collect();
             let lo: i64 = ws.iter().map(|w| (*w as i64).min(0)).sum();
             let hi: i64 = ws.iter().map(|w| (*w as i64).max(0)).sum();
             if k == K::BoolLinLe {
-                let rhs = cx.within(lo, hi);
+                let mut rhs = cx.within(lo, hi);
+                if cx.plant {
+                    let lhs: i64 = ws.iter().zip(&lits).map(|(w, l)| if cx.wl(l) { *w as i64 } else { 0 }).sum();
+                    rhs = (lhs + (cx.s().unsigned_abs() as i64) % 2) as i32;
+                }
                 Cons::BoolLinLe { ws, lits, rhs }
             } else {
                 Cons::BoolLinEq { ws, lits, rhs_var: cx.var() }
             }
         }
         K::Cumulative => {
-            let n = 1 + pick(cx.a(), 4);
+            let r = cx.a();
+            let n = cx.cap(1 + pick(r, 4), 0);
             let starts: Vec<Term> = (0..n).map(|_| cx.term()).collect();
             let durs: Vec<i32> = (0..n).map(|_| (cx.s().unsigned_abs() as i32) % 4).collect();
             let uses: Vec<i32> = (0..n).map(|_| (cx.s().unsigned_abs() as i32) % 4).collect();
@@ -416,12 +559,21 @@ pub fn build_cons(p: &GenParams, vars: &[VarDecl], rc: &RawCons, index: usize) -
         Mode::Post
     };
     let _ = index;
+    let mut cons = cons;
+    if let (Cons::Cumulative { opts, .. }, false) = (&mut cons, matches!(mode, Mode::Post)) {
+        // known finding KF-reified-incremental-cumulative: excluded by construction
+        if matches!(opts.method, 1 | 2 | 4 | 5) && !p.allow_reified_incremental_cumulative {
+            opts.method = if opts.method <= 2 { 0 } else { 3 };
+            EXCLUDED_REIF_INCR_CUM.fetch_add(1, std::sync::atomic::Ordering::Relaxed);
+        }
+    }
     Some(Posted { cons, mode, tag: *tag && p.tags })
 }
 
 pub fn build_model(p: &GenParams, rv: &[RawVar], rc: &[RawCons]) -> Model {
     let vars = build_vars(p, rv);
-    let cons = rc.iter().enumerate().filter_map(|(i, c)| build_cons(p, &vars, c, i)).collect();
+    let w = build_witness(&vars, rv);
+    let cons = rc.iter().enumerate().filter_map(|(i, c)| build_cons(p, &vars, &w, c, i)).collect();
     Model { vars, cons }
 }
 
